@@ -17,6 +17,7 @@ TRANSLATORS: dict[str, str] = {
     "GenLocales": "locales",
     "GenBody": "body",
     "GenPre": "preproc",
+    "GenPins": "pins",
 }
 
 
